@@ -253,6 +253,123 @@ theorem C16_transparent_vehicle (vp : VehiclePosMsg) (hn : (vp.trip.bind (·.nyc
 theorem C16_transparent_track (s : StuMsg) (h : s.nyct = none) : nyctGetTrack s = none := by
   simp [nyctGetTrack, h]
 
+/-! ## transparency, for a whole message -/
+
+/-- an entity without NYCT extension data (and, for a trip update, not subject to the M-train fix) -/
+def PlainEntity (o : NyctTripsOpts) (e : Entity) : Prop :=
+  (∀ tu, e.tripUpdate = some tu →
+    (tu.trip.bind (·.nyct)) = none ∧
+    (o.preserveM = true ∨ ((tu.trip.bind (·.routeId)).getD []) ≠ Gen.NyctTables.mTrainRoute) ∧
+    ∀ s ∈ tu.stus, s.nyct = none) ∧
+  (∀ vp, e.vehicle = some vp → (vp.trip.bind (·.nyct)) = none)
+
+theorem parseTripUpdate_plain (o : NyctTripsOpts) (tu : TripUpdateMsg) (h : ∀ s ∈ tu.stus, s.nyct = none) :
+    parseTripUpdate (.trips o) tu = parseTripUpdate .noExt tu := by
+  unfold parseTripUpdate
+  have hm : (tu.stus.map fun s =>
+        ({ stopSequence := s.stopSequence, stopId := s.stopId, arrival := convertEvent s.arrival,
+           departure := convertEvent s.departure, track := getTrack (.trips o) s, sr := s.sr.getD 0 } : StuOut))
+      = tu.stus.map fun s =>
+        ({ stopSequence := s.stopSequence, stopId := s.stopId, arrival := convertEvent s.arrival,
+           departure := convertEvent s.departure, track := getTrack .noExt s, sr := s.sr.getD 0 } : StuOut) := by
+    apply List.map_congr_left
+    intro s hs
+    simp [getTrack, C16_transparent_track s (h s hs)]
+  cases tu.trip with
+  | none => rfl
+  | some t => simp only [hm]
+
+theorem entityStep_plain (o : NyctTripsOpts) (acc : Acc) (e : Entity) (h : PlainEntity o e) :
+    entityStep (.trips o) acc e = entityStep .noExt acc e := by
+  unfold entityStep
+  cases htu : e.tripUpdate with
+  | none => rfl
+  | some tu =>
+    simp only
+    rw [parseTripUpdate_plain o tu (h.1 tu htu).2.2]
+
+theorem foldl_congr_mem {α β} (f g : β → α → β) (l : List α) (h : ∀ x ∈ l, ∀ b, f b x = g b x) (b : β) :
+    l.foldl f b = l.foldl g b := by
+  induction l generalizing b with
+  | nil => rfl
+  | cons x r ih =>
+    simp only [List.foldl_cons]
+    rw [h x (by simp) b]
+    exact ih (fun y hy => h y (by simp [hy])) _
+
+/-- **C16 (transparency).** A message whose entities carry no NYCT extension data (trip updates of
+    route M only with the platform fix disabled) parses with the NYCT trips extension exactly as with
+    no extension: same trips, vehicles, links and alerts. -/
+theorem C16_transparent_message (o : NyctTripsOpts) (m : Msg) (h : ∀ e ∈ m.entities, PlainEntity o e) :
+    parse (.trips o) m = parse .noExt m := by
+  have hpre : prepass (.trips o) m = prepass .noExt m := by
+    unfold prepass
+    apply List.map_congr_left
+    intro e he
+    have hp := h e he
+    cases htu : e.tripUpdate with
+    | some tu =>
+      simp only
+      rw [C16_transparent_trip_update o tu _ (hp.1 tu htu).1 (hp.1 tu htu).2.1]
+      cases e; simp_all
+    | none =>
+      simp only
+      cases hv : e.vehicle with
+      | none => rfl
+      | some vp =>
+        simp only
+        rw [C16_transparent_vehicle vp (hp.2 vp hv)]
+        cases e; simp_all
+  have hrun : runEntities (.trips o) (prepass .noExt m) = runEntities .noExt (prepass .noExt m) := by
+    unfold runEntities
+    apply foldl_congr_mem
+    intro p hp acc
+    cases hs : p.2
+    · simp only [Bool.false_eq_true, if_false]
+      apply entityStep_plain
+      -- the pre-processed entities of "no extension" are the message's own entities
+      unfold prepass at hp
+      simp only [List.mem_map] at hp
+      obtain ⟨e, he, rfl⟩ := hp
+      exact h e he
+    · simp
+  unfold parse
+  rw [hpre, hrun]
+
+/-- **…and in a feed that mixes NYCT-extended and plain entities**: each plain entity is handed to the
+    merge loop unchanged and not skipped, and contributes to *any* state of the merge loop exactly
+    what it contributes without the extension – whatever the other entities are -/
+theorem C16_transparent_in_any_feed (o : NyctTripsOpts) (m : Msg) (i : Nat) (e : Entity)
+    (he : m.entities[i]? = some e) (h : PlainEntity o e) :
+    (prepass (.trips o) m)[i]? = some (e, false) ∧ ∀ acc, entityStep (.trips o) acc e = entityStep .noExt acc e := by
+  refine ⟨?_, fun acc => entityStep_plain o acc e h⟩
+  unfold prepass
+  simp only [List.getElem?_map, he, Option.map_some, Option.some.injEq]
+  cases htu : e.tripUpdate with
+  | some tu =>
+    simp only
+    rw [C16_transparent_trip_update o tu _ (h.1 tu htu).1 (h.1 tu htu).2.1]
+    cases e; simp_all
+  | none =>
+    simp only
+    cases hv : e.vehicle with
+    | none => rfl
+    | some vp =>
+      simp only
+      rw [C16_transparent_vehicle vp (h.2 vp hv)]
+      cases e; simp_all
+
+/-- non-vacuity: an entity with a plain trip update on route "A" is a `PlainEntity` -/
+example : PlainEntity {} { id := [101], tripUpdate := some { trip := some { tripId := some [116], routeId := some [65] }, stus := [{ stopId := some [115] }] } } := by
+  refine ⟨?_, ?_⟩
+  · intro tu h
+    cases h
+    refine ⟨rfl, Or.inr (by decide), ?_⟩
+    intro s hs
+    simp only [List.mem_singleton] at hs
+    subst hs; rfl
+  · intro vp h; cases h
+
 /-! ## non-vacuity: 123450_A..N is an NYCT id whose origin time 1234.50 min = 20:34:30 -/
 example : matchNyctTripId [49, 50, 51, 52, 53, 48, 95, 65, 46, 46, 78] = some [49, 50, 51, 52, 53, 48] := by decide
 example : digitsVal [49, 50, 51, 52, 53, 48] < 600000 := by decide
